@@ -650,20 +650,29 @@ def obligations(tier):
             for kind in "sab:":
                 obs.append(mk_parse(step, kind, 12, 4))
         obs.append(mk_parse2(8))
-        for step in (None, 1, 2, 3, -1, -2, -3):
-            for nb in (1, 2, 3, 4):
-                for kind in (("s", "a", "b", ":") if nb == 3 else ("s",)):
-                    obs.append(mk_set((kind,), (nb,), (step,), 4 if nb < 4 else 3, 0, pad, cfgs=None if nb < 4 else [F, LF]))
+        for step in (None, 2, 3, -1, -2, -3):
+            obs.append(mk_set(("s",), (1,), (step,), 4, 1, pad))
+            obs.append(mk_set(("s",), (2,), (step,), 4, 0, pad))
+            obs.append(mk_set(("s",), (3,), (step,), 4, 0, pad, cfgs=[F, ONE, LF]))
+            for kind in "ab:":
+                obs.append(mk_set((kind,), (3,), (step,), 4, 0, pad, cfgs=[F]))
+        for step in (2, -2):
+            obs.append(mk_set(("s",), (4,), (step,), 3, 1, pad, cfgs=[F]))
         for nb in (1, 2, 3, 4):
             obs.append(mk_set(("i",), (nb,), (None,), 4, 0, pad))
-        for st in ((1, -1), (-1, 2), (2, -2), (-2, -1), (-3, 3)):
-            obs.append(mk_set(("s", "s"), (2, 2), st, 3, 0, pad))
-        obs.append(mk_set(("a", "b"), (3, 2), (-2, 2), 3, 0, pad, cfgs=[(0, ("f", "f")), (0, ("1", "f")), (0, ("f",))]))
-        obs.append(mk_set(("b", "a"), (2, 3), (2, -1), 3, 0, pad, cfgs=[(0, ("f", "f")), (0, ("f", "1")), (1, ("f", "f"))]))
-        for st in (None, 2, -1, -2):
-            obs.append(mk_set(("s", "i"), (2, 2), (st, None), 3, 0, pad))
-            obs.append(mk_set(("i", "s"), (2, 2), (None, st), 3, 0, pad))
-            obs.append(mk_set(("s", ":"), (2, 2), (st, None), 3, 0, pad, short=True))
+        four = [(0, ("f", "f")), (0, ("1", "f")), (0, ("f",)), (1, ("f", "1"))]
+        obs.append(mk_set(("a", "b"), (2, 2), (-1, 2), 3, 0, pad))
+        obs.append(mk_set(("s", "a"), (2, 2), (None, -1), 3, 1, pad, cfgs=four))
+        obs.append(mk_set(("b", "s"), (2, 2), (-2, 2), 3, 1, pad, cfgs=four))
+        obs.append(mk_set(("a", "a"), (2, 2), (-3, 3), 3, 0, pad, cfgs=four))
+        obs.append(mk_set(("b", "b"), (2, 2), (2, -2), 3, 0, pad, cfgs=four))
+        obs.append(mk_set(("a", "b"), (3, 2), (-2, 2), 3, 1, pad, cfgs=[(0, ("f", "f")), (0, ("1", "f")), (0, ("f",))]))
+        for st in (2, -1, -2):
+            obs.append(mk_set(("s", "i"), (2, 2), (st, None), 3, 1, pad, int_oob=False))
+            obs.append(mk_set(("i", "s"), (2, 2), (None, st), 3, 1, pad, int_oob=False))
+            obs.append(mk_set(("s", ":"), (2, 2), (st, None), 3, 1, pad, cfgs=[(0, ("f", "f")), (0, ("f",)), (0, ("f", "1")), (0, ("1", "f")), (1, ("f", "f"))],
+                              short=True))
+        obs.append(mk_set(("i", "b"), (2, 2), (None, None), 3, 0, pad))
         obs.append(mk_set(("i", "i"), (3, 3), (None, None), 3, 0, pad))
         obs.append(mk_fancy(3, ("int0", "int-1", "full", "rev"), ("list", "array", "mask", "dask_mask")))
     return obs
